@@ -96,6 +96,8 @@ class Session:
         self.info = {}
         self.max_decisions = 100000
         self.stop_on_violation = True
+        self.smt2_budget = 0
+        self.smt2_samples = []
 
     # -- context management (global active session for fork points) ------------------------------------
     def __enter__(self):
@@ -335,6 +337,12 @@ class Session:
         r = self._check(z3.Not(c))
         if r == z3.unsat:
             self.obligations.append(Obl(name, "discharged", t=time.time() - t))
+            if self.smt2_budget > 0 and (self.stats["checks"] % 7 == 0):
+                try:
+                    self.smt2_samples.append((name, self.smt2_of(claim)))
+                    self.smt2_budget -= 1
+                except Exception:
+                    pass
             return True
         if r == z3.sat:
             m = self.solver.model()
